@@ -151,6 +151,8 @@ class LRRP(MBXMLDocument):
             MBXMLDocumentIdentifier.LRRP_UnsolicitedLocationReport,
             MBXMLDocumentIdentifier.LRRP_UnsolicitedLocationReport_NCDT,
             MBXMLDocumentIdentifier.LRRP_LocationProtocolReport_NCDT,
+            MBXMLDocumentIdentifier.LRRP_TriggeredLocationAnswer,
+            MBXMLDocumentIdentifier.LRRP_TriggeredLocationAnswer_NCDT,
             MBXMLDocumentIdentifier.LRRP_TriggeredLocationStopAnswer,
             MBXMLDocumentIdentifier.LRRP_TriggeredLocationStopAnswer_NCDT,
         ):
